@@ -17,6 +17,7 @@ Open Scope string_scope.
 
 Inductive pexpr :=
 | PLit (s : string)                         (* string literal (printable ASCII) *)
+| PLitB (b : bytes)                         (* any other string literal, as bytes *)
 | PInt (n : nat)
 | PVar (x : string)
 | PSel (e : pexpr) (f : string)             (* e.f *)
@@ -35,6 +36,8 @@ Inductive pstmt :=
 | TAssign2 (x y : string) (op : string) (e : pexpr)     (* x, y := f() *)
 | TAssignSel (x f : string) (op : string) (e : pexpr)   (* x.f = e *)
 | TIf (c : pexpr) (thn els : list pstmt)
+| TTypeSwitch (e : pexpr) (cases : list (string * list pstmt))   (* switch e.(type) { case *pkg.T: ... } *)
+| TCall (fn : string) (args : list pexpr)               (* a call as a statement: fmt.Fprintf / Fprintln *)
 | TReturn (es : list pexpr)
 | TUnknown (what : string).
 
@@ -48,7 +51,8 @@ Inductive pval :=
 | VBo (b : bool)
 | VNil
 | VErr                               (* a non-nil error *)
-| VRec (flds : list (string * pval)) (* struct or pointer to struct *)
+| VRec (ty : string) (flds : list (string * pval))  (* struct or pointer to struct of type ty *)
+| VTag (ty : string)                 (* a value of which only the dynamic type matters *)
 | VTup (vs : list pval).             (* multiple results *)
 
 Definition env := list (string * pval).
@@ -183,9 +187,20 @@ Definition sprintf (f : bytes) (args : list pval) : option bytes :=
    leaves. *)
 Definition res := option (list pval).
 
+(* calls of functions and methods that are neither library functions nor opaque
+   accessors: name (or Type.Method), receiver, arguments, continuation *)
+Definition ext_t := string -> pval -> list pval -> (list pval -> res) -> res.
+Definition ext_none : ext_t := fun _ _ _ _ => None.
+
+Definition results (vs : list pval) (k : pval -> res) : res :=
+  match vs with
+  | [v] => k v
+  | _ => k (VTup vs)
+  end.
+
 Definition layout_010206 : bytes := [48; 49; 48; 50; 48; 54]%N.
 
-Definition builtin (fn : string) (args : list pval) (k : pval -> res) : res :=
+Definition builtin (ext : ext_t) (fn : string) (args : list pval) (k : pval -> res) : res :=
   if String.eqb fn "strings.EqualFold" then
     match args with
     | [VBy a; VBy [c]] => if fold_letter_ok c then k (VBo (equal_fold_letter a c)) else None
@@ -241,20 +256,38 @@ Definition builtin (fn : string) (args : list pval) (k : pval -> res) : res :=
     match args with [VBy a] => k (VBy (maskName a)) | _ => None end
   else if String.eqb fn "maskNumber" then
     match args with [VBy a] => k (VBy (maskNumber a)) | _ => None end
-  else None.
+  else ext fn VNil args (fun vs => results vs k).
 
-Definition method (recv : pval) (m : string) (args : list pval) (k : pval -> res) : res :=
-  if String.eqb m "Format" then
-    match recv, args with
-    | VBy d, [VBy l] => if bytes_eqb l layout_010206 then k (VBy d) else None
-    | _, _ => None
-    end
-  else None.
+(* methods: time.Time.Format("010206") on the represented date; the 80-column
+   field accessor of Addenda05; other accessors of a record are opaque values
+   stored under "Name()"; anything else is a call of a translated method *)
+Definition method (ext : ext_t) (recv : pval) (m : string) (args : list pval) (k : pval -> res) : res :=
+  match recv with
+  | VBy d =>
+      if String.eqb m "Format" then
+        match args with
+        | [VBy l] => if bytes_eqb l layout_010206 then k (VBy d) else None
+        | _ => None
+        end
+      else None
+  | VRec ty flds =>
+      if String.eqb ty "Addenda05" && String.eqb m "PaymentRelatedInformationField" then
+        match args, lookup_v flds "PaymentRelatedInformation" with
+        | [], Some (VBy pri) => k (VBy (alphaField pri 80))
+        | _, _ => None
+        end
+      else
+        match lookup_v flds (m ++ "()") with
+        | Some v => match args with [] => k v | _ => None end
+        | None => ext (ty ++ "." ++ m) recv args (fun vs => results vs k)
+        end
+  | _ => None
+  end.
 
 Definition is_nil (v : pval) : option bool :=
   match v with
   | VNil => Some true
-  | VErr | VRec _ => Some false
+  | VErr | VRec _ _ => Some false
   | _ => None
   end.
 
@@ -296,19 +329,20 @@ Definition slice_list {A} (l : list A) (lo hi : option nat) (k : list A -> res) 
 
 (* ---------- expressions ---------- *)
 
-Fixpoint eval (en : env) (e : pexpr) (k : pval -> res) {struct e} : res :=
+Fixpoint eval (ext : ext_t) (en : env) (e : pexpr) (k : pval -> res) {struct e} : res :=
   let evals := fix evals (es : list pexpr) (kk : list pval -> res) : res :=
     match es with
     | [] => kk []
-    | x :: r => eval en x (fun v => evals r (fun vs => kk (v :: vs)))
+    | x :: r => eval ext en x (fun v => evals r (fun vs => kk (v :: vs)))
     end in
   let eval_opt := fun (o : option pexpr) (kk : option nat -> res) =>
     match o with
     | None => kk None
-    | Some x => eval en x (fun v => match v with VNat n => kk (Some n) | _ => None end)
+    | Some x => eval ext en x (fun v => match v with VNat n => kk (Some n) | _ => None end)
     end in
   match e with
   | PLit s => k (VBy (bytes_of_string s))
+  | PLitB b => k (VBy b)
   | PInt n => k (VNat n)
   | PVar x =>
       match lookup_v en x with
@@ -319,41 +353,41 @@ Fixpoint eval (en : env) (e : pexpr) (k : pval -> res) {struct e} : res :=
                 else None
       end
   | PSel e' f =>
-      eval en e' (fun v =>
+      eval ext en e' (fun v =>
         match v with
-        | VRec flds => match lookup_v flds f with Some x => k x | None => None end
+        | VRec _ flds => match lookup_v flds f with Some x => k x | None => None end
         | _ => None
         end)
-  | PCall fn args => evals args (fun vs => builtin fn vs k)
-  | PMethod r m args => eval en r (fun rv => evals args (fun vs => method rv m vs k))
+  | PCall fn args => evals args (fun vs => builtin ext fn vs k)
+  | PMethod r m args => eval ext en r (fun rv => evals args (fun vs => method ext rv m vs k))
   | PSlice e' lo hi =>
-      eval en e' (fun v => eval_opt lo (fun lo' => eval_opt hi (fun hi' =>
+      eval ext en e' (fun v => eval_opt lo (fun lo' => eval_opt hi (fun hi' =>
         match v with
         | VBy b => slice_list b lo' hi' (fun r => k (VBy r))
         | VLs l => slice_list l lo' hi' (fun r => k (VLs r))
         | _ => None
         end)))
   | PIndex e' i =>
-      eval en e' (fun v => eval en i (fun iv =>
+      eval ext en e' (fun v => eval ext en i (fun iv =>
         match v, iv with
         | VLs l, VNat n => match nth_error l n with Some x => k (VBy x) | None => None end
         | _, _ => None
         end))
-  | PBin op a b => eval en a (fun x => eval en b (fun y => binop op x y k))
-  | PNot e' => eval en e' (fun v => match v with VBo b => k (VBo (negb b)) | _ => None end)
-  | PStruct _ kvs =>
+  | PBin op a b => eval ext en a (fun x => eval ext en b (fun y => binop op x y k))
+  | PNot e' => eval ext en e' (fun v => match v with VBo b => k (VBo (negb b)) | _ => None end)
+  | PStruct ty kvs =>
       (fix flds (l : list (string * pexpr)) (kk : list (string * pval) -> res) : res :=
         match l with
         | [] => kk []
-        | (key, x) :: r => eval en x (fun v => flds r (fun vs => kk ((key, v) :: vs)))
-        end) kvs (fun fs => k (VRec fs))
+        | (key, x) :: r => eval ext en x (fun v => flds r (fun vs => kk ((key, v) :: vs)))
+        end) kvs (fun fs => k (VRec ty fs))
   | PUnknownE _ => None
   end.
 
-Fixpoint evals (en : env) (es : list pexpr) (kk : list pval -> res) : res :=
+Fixpoint evals (ext : ext_t) (en : env) (es : list pexpr) (kk : list pval -> res) : res :=
   match es with
   | [] => kk []
-  | x :: r => eval en x (fun v => evals en r (fun vs => kk (v :: vs)))
+  | x :: r => eval ext en x (fun v => evals ext en r (fun vs => kk (v :: vs)))
   end.
 
 (* ---------- statements ---------- *)
@@ -374,18 +408,46 @@ Definition assign (en : env) (x op : string) (v : pval) (k : env -> res) : res :
     end
   else None.
 
-Fixpoint exec (s : pstmt) (en : env) (k : env -> res) {struct s} : res :=
+(* what the function has written to its io.Writer so far *)
+Definition out_var : string := "$out".
+
+Definition write_out (en : env) (b : bytes) (k : env -> res) : res :=
+  match lookup_v en out_var with
+  | Some (VBy o) => match update_v en out_var (VBy (o ++ b)%list) with Some en' => k en' | None => None end
+  | _ => None
+  end.
+
+Definition call_stmt (en : env) (fn : string) (args : list pval) (k : env -> res) : res :=
+  if String.eqb fn "fmt.Fprintln" then
+    match args with
+    | [_; VBy s] => write_out en (s ++ [10%N])%list k
+    | _ => None
+    end
+  else if String.eqb fn "fmt.Fprintf" then
+    match args with
+    | _ :: VBy f :: rest => match sprintf f rest with Some b => write_out en b k | None => None end
+    | _ => None
+    end
+  else None.
+
+(* [k]: the rest of the enclosing block; [kr]: what a return statement does *)
+Fixpoint exec (ext : ext_t) (s : pstmt) (en : env) (k : env -> res) (kr : env -> list pval -> res) {struct s} : res :=
   let block := fix block (ss : list pstmt) (en : env) (kk : env -> res) : res :=
     match ss with
     | [] => kk en
-    | s' :: r => exec s' en (fun en' => block r en' kk)
+    | s' :: r => exec ext s' en (fun en' => block r en' kk) kr
+    end in
+  let cases := fix cases (ty : string) (cs : list (string * list pstmt)) (en : env) (kk : env -> res) : res :=
+    match cs with
+    | [] => kk en
+    | (t, body) :: r => if String.eqb t ty then block body en kk else cases ty r en kk
     end in
   match s with
   | TDecl x => k ((x, VBy []) :: en)
-  | TAssign x op e => eval en e (fun v => assign en x op v k)
+  | TAssign x op e => eval ext en e (fun v => assign en x op v k)
   | TAssign2 x y op e =>
       if String.eqb op ":=" then
-        eval en e (fun v =>
+        eval ext en e (fun v =>
           match v with
           | VTup [a; b] => k (bind_var (bind_var en x a) y b)
           | _ => None
@@ -393,32 +455,44 @@ Fixpoint exec (s : pstmt) (en : env) (k : env -> res) {struct s} : res :=
       else None
   | TAssignSel x f op e =>
       if String.eqb op "=" then
-        eval en e (fun v =>
+        eval ext en e (fun v =>
           match lookup_v en x with
-          | Some (VRec flds) =>
+          | Some (VRec ty flds) =>
               match update_v flds f v with
-              | Some flds' => match update_v en x (VRec flds') with Some en' => k en' | None => None end
+              | Some flds' => match update_v en x (VRec ty flds') with Some en' => k en' | None => None end
               | None => None
               end
           | _ => None
           end)
       else None
   | TIf c thn els =>
-      eval en c (fun v =>
+      eval ext en c (fun v =>
         match v with
         | VBo b =>
             if b then block thn ((scope_mark, VNil) :: en) (fun en' => k (pop_scope en'))
             else block els ((scope_mark, VNil) :: en) (fun en' => k (pop_scope en'))
         | _ => None
         end)
-  | TReturn es => evals en es (fun vs => Some vs)
+  | TTypeSwitch e cs =>
+      eval ext en e (fun v =>
+        match v with
+        | VTag ty => cases ty cs ((scope_mark, VNil) :: en) (fun en' => k (pop_scope en'))
+        | _ => None
+        end)
+  | TCall fn args =>
+      (fix evs (es : list pexpr) (kk : list pval -> res) : res :=
+         match es with
+         | [] => kk []
+         | x :: r => eval ext en x (fun v => evs r (fun vs => kk (v :: vs)))
+         end) args (fun vs => call_stmt en fn vs k)
+  | TReturn es => evals ext en es (fun vs => kr en vs)
   | TUnknown _ => None
   end.
 
-Fixpoint exec_block (ss : list pstmt) (en : env) (k : env -> res) : res :=
+Fixpoint exec_block (ext : ext_t) (ss : list pstmt) (en : env) (k : env -> res) (kr : env -> list pval -> res) : res :=
   match ss with
   | [] => k en
-  | s :: r => exec s en (fun en' => exec_block r en' k)
+  | s :: r => exec ext s en (fun en' => exec_block ext r en' k kr) kr
   end.
 
 Fixpoint zip_env (xs : list string) (vs : list pval) : env :=
@@ -427,9 +501,38 @@ Fixpoint zip_env (xs : list string) (vs : list pval) : env :=
   | _, _ => []
   end.
 
-(* a call of the function: falling off the end of the body is not a result *)
+(* a call of a function with results, continuing with [kr]; falling off the end
+   of the body is not a result *)
+Definition call_func (ext : ext_t) (f : pfunc) (recv : pval) (args : list pval) (kr : list pval -> res) : res :=
+  exec_block ext (pf_body f) ((pf_recv f, recv) :: zip_env (pf_params f) args)
+    (fun _ => None) (fun _ vs => kr vs).
+
 Definition run_func (f : pfunc) (recv : pval) (args : list pval) : res :=
-  exec_block (pf_body f) ((pf_recv f, recv) :: zip_env (pf_params f) args) (fun _ => None).
+  call_func ext_none f recv args (fun vs => Some vs).
+
+(* a call of a function without results that writes to an io.Writer: the
+   outcome is what it has written when it returns *)
+Definition written (en : env) : res :=
+  match lookup_v en out_var with Some v => Some [v] | None => None end.
+
+Definition run_proc (ext : ext_t) (f : pfunc) (args : list pval) : res :=
+  exec_block ext (pf_body f) ((out_var, VBy []) :: zip_env (pf_params f) args)
+    written (fun en vs => match vs with [] => written en | _ => None end).
+
+(* calls resolved in a table of translated functions (which themselves call
+   nothing but library functions) *)
+Fixpoint find_func (tbl : list (string * pfunc)) (fn : string) : option pfunc :=
+  match tbl with
+  | [] => None
+  | (n, f) :: r => if String.eqb n fn then Some f else find_func r fn
+  end.
+
+Definition ext_table (tbl : list (string * pfunc)) : ext_t :=
+  fun fn recv args kr =>
+    match find_func tbl fn with
+    | Some f => call_func ext_none f recv args kr
+    | None => None
+    end.
 
 (* ---------- the Go structs as interpreter values ---------- *)
 
@@ -440,17 +543,25 @@ Definition enr_struct_fields : list string :=
 Definition dne_struct_fields : list string := ["DateOfDeath"; "CustomerSSN"; "Amount"].
 
 Definition enr_rec (i : enr_info) : pval :=
-  VRec [("TransactionCode", VInt (e_tx i)); ("RDFIIdentification", VBy (e_rdfi i));
+  VRec "ENRPaymentInformation"
+       [("TransactionCode", VInt (e_tx i)); ("RDFIIdentification", VBy (e_rdfi i));
         ("CheckDigit", VBy (e_check i)); ("DFIAccountNumber", VBy (e_acct i));
         ("IndividualIdentification", VBy (e_ident i)); ("IndividualName", VBy (e_name i));
         ("EnrolleeClassificationCode", VBy (e_code i))].
 
 Definition dne_rec (i : dne_info) : pval :=
-  VRec [("DateOfDeath", VBy (d_date i)); ("CustomerSSN", VBy (d_ssn i)); ("Amount", VBy (d_amount i))].
+  VRec "DNEPaymentInformation"
+       [("DateOfDeath", VBy (d_date i)); ("CustomerSSN", VBy (d_ssn i)); ("Amount", VBy (d_amount i))].
 
-(* the *Addenda05 argument of the parse functions *)
-Definition addenda_rec (pri : bytes) : pval :=
-  VRec [("ID", VBy []); ("PaymentRelatedInformation", VBy pri)].
+(* the *Addenda05 argument; [seq] and [eseq] are what its two other field
+   accessors return (opaque) *)
+Definition addenda_rec (pri seq eseq : bytes) : pval :=
+  VRec "Addenda05"
+       [("ID", VBy []); ("PaymentRelatedInformation", VBy pri);
+        ("SequenceNumberField()", VBy seq); ("EntryDetailSequenceNumberField()", VBy eseq)].
+
+Definition opts_rec (names accts corrected : bool) : pval :=
+  VRec "Opts" [("MaskNames", VBo names); ("MaskAccountNumbers", VBo accts); ("MaskCorrectedData", VBo corrected)].
 
 (* results of the parse functions: (info, nil) or (nil, err) *)
 Definition enr_parse_result (pri : bytes) : list pval :=
@@ -464,3 +575,12 @@ Definition dne_parse_result (pri : bytes) : list pval :=
   | Some i => [dne_rec i; VNil]
   | None => [VNil; VErr]
   end.
+
+(* what dumpAddenda05 writes for an addenda whose cell is [cell]: the header
+   line and the row `      %s\t%s\t%s\n` *)
+Definition addenda05_header : bytes :=
+  (bytes_of_string "      PaymentRelatedInformation" ++ [9%N] ++ bytes_of_string "SequenceNumber"
+   ++ [9%N] ++ bytes_of_string "EntryDetailSequenceNumber" ++ [10%N])%list.
+
+Definition addenda05_lines (cell seq eseq : bytes) : bytes :=
+  (addenda05_header ++ bytes_of_string "      " ++ cell ++ [9%N] ++ seq ++ [9%N] ++ eseq ++ [10%N])%list.
